@@ -2,6 +2,7 @@ import Spec.Render
 import Lemmas.Py.Ast
 import Lemmas.Py.Roundtrip
 import Lemmas.Render.Wf
+import Lemmas.Render.Eval
 /-!
 # C08 — rendered migration code does exactly what the operation objects do
 
@@ -14,8 +15,12 @@ comments, all operations of `Model.Render.Op`, batch and non-batch, with and wit
 * `C08.syntax_full` (`syntax` is a Lean keyword): hence the rendered text of **every** operation parses and denotes the intended call
   (`canon`), at full strength (the table-comment renderers use `%r` since the F8 fix).
 
+* `C08.roundtrip`: evaluating the rendered call gives back the operation (`evalCall ∘ renderOp = normalize`)
+  for every directive except `create_table`.
+
 Not proved here: that SQLAlchemy's `repr(type)` / DDL compilation agree (outside the model; observed by
-the exec-vs-invoke oracle on every run).
+the exec-vs-invoke oracle on every run); `evalCall` for `create_table`; that `evalCall` commutes with `canon`
+for opaque fragments (the driver evaluates `evalDenotes` = parse ∘ evalCall on the implementation's text).
 -/
 namespace C08
 open Model.Py Model.Render Spec.Render
@@ -40,12 +45,27 @@ theorem syntax_denotes (c : Ctx) (o : Op) (hc : ctxOk c = true) (ho : opOk o = t
     Denotes c.isP (pp c.isP (renderOp c o)) (renderOp c o) := by
   simp [Denotes, syntax_full c o hc ho]
 
+/-- **C08.roundtrip**: for every evaluation context (batch or not, any header table / schema), every
+operation other than `create_table` and every choice of names, evaluating the rendered call (binding
+positional and keyword arguments the way `op.<directive>` does) yields the operation, up to `normalize`
+(see `Model/Render/Eval.lean` for exactly what `normalize` erases; the only erased field `invoke` can
+observe is `existing_server_default` next to a new `server_default` on MSSQL: finding C08-N5). -/
+theorem roundtrip (ec : ECtx) (o : Op) (h : evalOk o = true) :
+    evalCall ec (renderOp ec.c o) = some (normalize ec o) := evalCall_renderOp ec o h
+
+/-- outside batch mode `normalize` only replaces falsy strings by `None` and drops the two shadowed
+`existing_*` attributes: e.g. it is the identity on `drop_column` with a non-empty schema -/
+example (ec : ECtx) (hb : ec.c.batch = false) (t col : Str) (c0 : Char) (s : Str) :
+    normalize ec (.dropColumn t (some (c0 :: s)) col) = .dropColumn t (some (c0 :: s)) col := by
+  simp [normalize, hb, truthy]
+
 /-! ### non-vacuity -/
 
 def ctx0 : Ctx := { batch := false, opPrefix := S "op.", saPrefix := S "sa.", isP := fun _ => true }
 
 /-- the hypotheses are satisfiable by an operation with awkward names, `op.f()` and an opaque type -/
-example : ctxOk ctx0 = true ∧
+example : ctxOk ctx0 = true ∧ evalOk (.createIndex (.conv (S "ix_it's")) (S "it's \"t\"\\") (some (S "s'x")) [.col (S "na\"me"),
+      .expr (.call (S "sa.literal_column") Layout.inline [pos (.str (S "lower(x)"))])] true [] none) = true ∧
     opOk (.createIndex (.conv (S "ix_it's")) (S "it's \"t\"\\") (some (S "s'x")) [.col (S "na\"me"),
       .expr (.call (S "sa.literal_column") Layout.inline [pos (.str (S "lower(x)"))])] true [] none) = true := by
   decide +kernel
